@@ -164,7 +164,8 @@ def interrupt_case(item):
     sc, root = item
     st = WorkerStats()
     os.makedirs(root, exist_ok=True)
-    case = {'scenario': {k: sc[k] for k in ('tasks', 'backend', 'runner', 'pre', 'failing', 'edits', 'continue', 'interrupt')}}
+    case = {'scenario': {k: sc[k] for k in ('tasks', 'backend', 'runner', 'pre', 'failing', 'edits', 'continue', 'interrupt',
+                                            'rm_targets') if k in sc}}
     try:
         s0 = cl.prepare(sc, root)
         ref = cl.census(dict(sc), root, s0)      # uninterrupted reference: which tasks are stale at S0
@@ -175,12 +176,15 @@ def interrupt_case(item):
         ev1 = [e for e in cl.read_events(d) if e.get('run') == 'intr']
         ti = sc['interrupt'].split(':')[0]
         in_teardown = ':teardown:' in sc['interrupt']
+        in_report = ':report:' in sc['interrupt']
         fired = any(e.get('ev') == ('teardown' if in_teardown else 'start') and e['t'] == ti for e in ev1)
+        if in_report:
+            fired = any(e.get('ev') == 'rep' and e['what'] in ('success', 'fail') and e['t'] == ti for e in ev1)
         st.case(case, nontrivial=fired)
         st.count('backend:' + sc['backend'])
         st.count('runner:' + sc['runner'])
         st.count('interrupt:' + sc['interrupt'].split(':')[-1])
-        st.count('interrupt-in:' + ('teardown' if in_teardown else 'action'))
+        st.count('interrupt-in:' + sc['interrupt'].split(':')[1])
         st.count('fired' if fired else 'not-fired')
         st.count('intr-exit:%s' % code)
         if not fired:
@@ -200,8 +204,10 @@ def interrupt_case(item):
                 plan.append([names.index(e['t']), 'ok', it.rid(s) if isinstance(s, dict) else 0])
             elif e.get('ev') == 'rep' and e['what'] == 'fail':
                 plan.append([names.index(e['t']), 'fail'])
-        if not in_teardown:
+        if not in_teardown and not in_report:
             plan.append([names.index(ti), 'interrupt'])
+        # (an internal error raised by the reporter strikes after save_success / remove_success of that task: the plan
+        #  already holds its outcome; nothing else is processed afterwards)
         # (an interruption inside a teardown action strikes in finish(), after the flush: the whole plan is persisted)
         ans = common.drv_batch([{'model': 'crash', 'op': 'afterRun', 'continue': True, 'tasks': list(range(len(names))),
                                  'old': old_pairs, 'plan': plan}])[0]
